@@ -49,7 +49,7 @@ func dbEvent(sc *Scenario) *vh.Ev {
 		if rows == nil {
 			rows = [][]Val{}
 		}
-		tabs = append(tabs, vh.E("").Add("name", t.Name).Add("cols", t.Cols).Add("rows", rows))
+		tabs = append(tabs, (&vh.Ev{}).Add("name", t.Name).Add("cols", t.Cols).Add("rows", rows))
 	}
 	return vh.E("Db", "tables", tabs)
 }
